@@ -58,11 +58,17 @@ fn move_function(
 ) -> String {
     let mut first = true;
     let mut arguments = "".to_string();
+    let arg_separator = if locale.numbers.symbols.decimal == "." {
+        ','
+    } else {
+        ';'
+    };
     for el in args {
         if !first {
             arguments = format!(
-                "{},{}",
+                "{}{}{}",
                 arguments,
+                arg_separator,
                 to_string_moved(el, move_context, locale, language)
             );
         } else {
@@ -512,17 +518,27 @@ fn to_string_moved(
             )
         }
         LambdaDefKind { parameters, body } => {
+            let arg_sep = if locale.numbers.symbols.decimal == "." {
+                ","
+            } else {
+                ";"
+            };
             let mut parts: Vec<String> = parameters.iter().map(|p| p.name.clone()).collect();
             parts.push(to_string_moved(body, move_context, locale, language));
-            format!("LAMBDA({})", parts.join(","))
+            format!("LAMBDA({})", parts.join(arg_sep))
         }
         LambdaCallKind { lambda, args } => {
+            let arg_sep = if locale.numbers.symbols.decimal == "." {
+                ","
+            } else {
+                ";"
+            };
             let lambda_str = to_string_moved(lambda, move_context, locale, language);
             let call_args: Vec<String> = args
                 .iter()
                 .map(|a| to_string_moved(a, move_context, locale, language))
                 .collect();
-            format!("{}({})", lambda_str, call_args.join(","))
+            format!("{}({})", lambda_str, call_args.join(arg_sep))
         }
     }
 }
